@@ -283,7 +283,8 @@ def check_decode_order(P, R, f, unq):
         for u in uq:
             inner = ast.walk(u.args[0]) if u.args else []
             innercl = rdx.closure_nodes(u.args[0], at) if u.args else []
-            if not any(is_plus_replace(x) for x in innercl):
+            plus_itself = fn.module.imports.get(u.func.id) == 'urllib.parse:unquote_plus'     # unquote_plus turns "+" into a space first
+            if not plus_itself and not any(is_plus_replace(x) for x in innercl):
                 probs.append('the text handed to unquote() has not had "+" turned into a space')
         for h in helper_calls:
             if depth < 2:
@@ -294,6 +295,30 @@ def check_decode_order(P, R, f, unq):
             probs.append('value is not percent-decoded')
         return probs
 
+    # a lookup table local to the parser (memo of decoded names/values) must be keyed by one kind of text only
+    tables = {d.name for n in g.nodes for d in rd.gen.get(n, []) if d.kind == 'assign' and d.value is not None and
+              ((isinstance(d.value, ast.Dict) and not d.value.keys) or (isinstance(d.value, ast.Call) and dotted(d.value.func) in ('dict', 'OrderedDict') and not d.value.args))}
+    for tb in sorted(tables):
+        keys = []
+        for x in walk_shallow(f.node):
+            if isinstance(x, ast.Call) and isinstance(x.func, ast.Attribute) and isinstance(x.func.value, ast.Name) and x.func.value.id == tb \
+                    and x.func.attr in ('get', 'setdefault', 'pop') and x.args:
+                keys.append((x, x.args[0]))
+            elif isinstance(x, ast.Subscript) and isinstance(x.value, ast.Name) and x.value.id == tb:
+                keys.append((x, x.slice))
+        kinds = {}
+        for (x, k) in keys:
+            xn = g.node_of_stmt(x)
+            if not xn:
+                continue
+            decoded = any(isinstance(y, ast.Call) and isinstance(y.func, ast.Name) and y.func.id in unq for y in rd.closure_nodes(k, xn[0], follow_mut=False))
+            kinds.setdefault('decoded' if decoded else 'raw', []).append(x)
+        if len(keys) >= 2:
+            ok = len(kinds) == 1
+            R.ob('C18.d', f, (kinds.get('decoded') or [keys[0][0]])[0], ok, text=f'lookup table `{tb}` is keyed by one kind of text', detail='' if ok else
+                 f'`{tb}` is keyed both by raw (still encoded) and by decoded text: decoding is not idempotent, so a decoded name that spells an escape or a "+" '
+                 f'is taken for the raw form of another name (a%2Bb=1&a+b=2 merges two different keys)',
+                 why="'+' and percent-escapes decode to what was sent", key_extra=f'table:{tb}')
     for c in add_calls:
         cn = g.node_of_stmt(c)[0]
         for role, arg in (('key', c.args[0]), ('value', c.args[1])):
